@@ -79,6 +79,7 @@ type roundOut struct {
 	HeteroDecs      int                `json:"hetero_decs"`
 	HeteroPairs     map[string]int     `json:"hetero_pairs"`
 	Burst           []burstKindOut     `json:"burst,omitempty"`
+	Construct       []constructOut     `json:"construct,omitempty"`
 	WarmDoubleClose int                `json:"warm_double_close"`
 	DoubleCloseOps  int                `json:"double_close_ops"`
 	EncOverlapPairs int                `json:"enc_overlap_pairs"`
@@ -1233,7 +1234,8 @@ func runChild(jobPath string) {
 	runtime.GOMAXPROCS(jb.Full)
 	bpools := buildHetero(w.hk, mon.NewRNG(jb.Seed, "c20/burst/pool"), false)
 	burst := runBurst(w.hk, bpools, jb.Seed, fmt.Sprintf("race-rep%d", jb.Rep), 8, map[string]int{"X": 100, "E": 40, "R": 8})
-	enc.Encode(&roundOut{Done: true, Rounds: no, Rep: jb.Rep, Burst: burst})
+	cons := runConstruct(w.hk, jb.Seed, fmt.Sprintf("race-rep%d", jb.Rep))
+	enc.Encode(&roundOut{Done: true, Rounds: no, Rep: jb.Rep, Burst: burst, Construct: cons})
 	bw.Flush()
 	f.Close()
 	os.Exit(0)
